@@ -426,6 +426,102 @@ def finish_sub(run, tid, expected):
     return rec
 
 
+def public_api_expected_case(tid, expected, opens, listen):
+    """The subprotocol contract as the application states it: two real wormholes, `w.dilate(expected_subprotocols=expected)`
+    on the Follower (full stack, harness Noise stand-in); the Leader opens subchannels named `opens`; the Follower listens for
+    `listen`.  An OPEN outside the declared set must be refused by closing it, not held; one inside it appears exactly once."""
+    from .dil_full import FullWorld
+    from twisted.internet import protocol as tproto
+    fw = FullWorld(variant=tid)
+    fw.dilate_kwargs_by_side = {"F": {"expected_subprotocols": list(expected)}}
+    fw.do(("AppDilate", "L", 0))
+    fw.do(("AppDilate", "F", 0))
+    connected = fw.run_out() and bool(fw.selected_links("L")) and bool(fw.selected_links("F"))
+    log_ = {"L": {}, "F": {}}
+    errors = []
+
+    class Rec(tproto.Protocol):
+        def __init__(self, side, label):
+            self.side, self.label, self.ev = side, label, []
+            log_[side][label] = self.ev
+
+        def connectionMade(self):
+            self.ev.append(["made", "-"])
+
+        def dataReceived(self, data):
+            self.ev.append(["data", data.decode()])
+
+        def connectionLost(self, reason=None):
+            self.ev.append(["lost", "-"])
+
+    class Fac(tproto.Factory):
+        def __init__(self, side, name):
+            self.side, self.name, self.n = side, name, 0
+
+        def buildProtocol(self, addr):
+            self.n += 1
+            return Rec(self.side, "%s%d" % (self.name, self.n))
+
+    def pump():
+        for _ in range(30):
+            moved = False
+            for i in fw.selected_links("L"):
+                link = fw.links[i]
+                for e in (0, 1):
+                    while link.can_deliver(e):
+                        fw.deliver_unit(link, e)
+                        moved = True
+            fw.run_auto_timers()
+            for n in ("L", "F"):
+                eq = fw._eq(n)
+                while getattr(eq, "_calls", None):
+                    reactor_ = eq._clock
+                    for dc in list(reactor_.due()):
+                        reactor_.run_call(dc)
+                    moved = True
+                    break
+            if not moved:
+                break
+    openers = {}
+    held = 0
+    if connected:
+        try:
+            for name in listen:
+                fw.api["F"].listener_for(name).listen(Fac("F", name))
+            pump()
+            for k, name in enumerate(opens):
+                d = fw.api["L"].connector_for(name).connect(Fac("L", "o:%s#%d_" % (name, k)))
+                d.addCallbacks(lambda p_, k=k: openers.__setitem__(k, p_), lambda f, k=k: errors.append("connect %d: %r" % (k, f.value)))
+                pump()
+            for k, p_ in sorted(openers.items()):
+                try:
+                    p_.transport.write(("w%d" % k).encode())
+                except Exception:
+                    pass        # a refused subchannel is already closed
+            pump()
+            demux = fw.manager("F")._subprotocol_factories
+            for name, q in demux._pending_opens.items():
+                if name not in expected:
+                    held += len(q)
+        except Exception as e:
+            errors.append("family: %r" % (e,))
+    ends = {}
+    for side in ("L", "F"):
+        for label, ev in log_[side].items():
+            ends["%s:%s" % (side, label)] = {"ev": ev, "peerWrote": [x[1] for x in ev if x[0] == "data"], "errors": [], "calls": [], "closesSent": 0}
+    # an expected name that is listened for must have appeared exactly once per open; an unexpected one never
+    appeared = {name: sum(1 for label in log_["F"] if label.rstrip("0123456789") == name) for name in set(opens)}
+    wrong = ["%s appeared %d times for %d opens" % (name, appeared[name], opens.count(name)) for name in appeared
+             if (name in expected and name in listen and appeared[name] != opens.count(name)) or (name not in expected and appeared[name] != 0)]
+    refused_seen = all(any(x[0] == "lost" for x in log_["L"].get("o:%s#%d_1" % (name, k), [])) for k, name in enumerate(opens) if name not in expected)
+    benign = ("DataForMissingSubchannelError", "CloseForMissingSubchannelError")      # our own writes to a subchannel the peer refused
+    internal = errors + [x for x in fw.finish() if not x.startswith(benign)] + wrong + ([] if connected else ["public-api case: the two wormholes did not connect"]) + \
+        ([] if refused_seen else ["an OPEN outside the declared set was not closed towards its opener"])
+    return {"tid": tid, "kind": "sub", "issued": [], "delivered": [], "goal": False, "internal": internal, "ends": ends,
+            "pendingUnexpected": held, "scids": {"L": [], "F": []}, "afterCloseOK": True, "origin": "family:public-api-expected",
+            "config": "public"}
+
+
 UNSET = Raw('[s \\in {"L","F"} |-> [given |-> FALSE, names |-> {}]]')
 EXPF = Raw('[s \\in {"L","F"} |-> IF s = "F" THEN [given |-> TRUE, names |-> {"a"}] ELSE [given |-> FALSE, names |-> {}]]')
 EXP0 = Raw('[s \\in {"L","F"} |-> IF s = "F" THEN [given |-> TRUE, names |-> {}] ELSE [given |-> FALSE, names |-> {}]]')
@@ -589,6 +685,16 @@ def run(prop, tier):
                         ndrift += 1
                         if len(cov["drift"]) < 6:
                             cov["drift"].append(dict(drift, tid=tid, config=name))
+        if prop == "C13":
+            n = 0
+            for expected, opens, listen in ((["a"], ["a"], ["a"]), (["a"], ["u"], ["a"]), (["a"], ["u", "a", "u"], ["a"]), ([], ["u"], []),
+                                            (["a", "b"], ["b", "a", "u"], ["a", "b"]), (["a"], ["a", "a"], ["a"])):
+                tid += 1
+                n += 1
+                rec = public_api_expected_case(tid, expected, opens, listen)
+                records.append(rec)
+                meta[tid] = {"schedule": [["public-api-expected", expected, opens, listen]], "config": "public"}
+            cov["public_api_cases"] = n
         verdicts = run_observer(wd, records)
     decides = {"C10": ["InOrderOnce", "Goal", "NoInternal"],
                "C13": ["OpensOnce", "NothingAfterLost", "DataInOrder", "IdsDisjoint", "UnexpectedRefused", "WriteAfterCloseErrors", "NoInternal", "CloseOnce"]}[prop]
